@@ -17,7 +17,7 @@ CLAIMED = {
     'C03': dict(
         cat='proof', ref='DESIGN 4/C03',
         text='Panic-freedom and bookkeeping integrity of both parsers as proof obligations: every expect/unwrap/index/slice/split/arithmetic/assert!/debug_assert! site in the extracted functions is shown unreachable under the documented preconditions only, for arbitrary bytes; wf (the debug_assert_invars! geometry) is preserved by every method; loops carry decreases measures (termination); fatal header errors leave the parser on the offending header (sticky).',
-        note='Chunking invariance is carried by the per-call functional contracts (state and outputs are functions of the abstract state and the bytes consumed; the unread tail is returned unchanged); for stream::Parser the inductive statement over all read cuts is machine-checked on the run specification (unit streamlemmas: lemma_run_split / lemma_any_reads, GetValues bodies via lemma_values_split); for the request parser the segmentation lemmas of unit reqlemmas cover the Params payload, the whole-history induction with interleaved records is composition. usize fixed to 64 bit.',
+        note='Chunking invariance is carried by the per-call functional contracts (state and outputs are functions of the abstract state and the bytes consumed; the unread tail is returned unchanged); for stream::Parser the inductive statement over all read cuts is machine-checked on the run specification (unit streamlemmas: lemma_run_split / lemma_any_reads, GetValues bodies via lemma_values_split); for the request parser likewise (unit reqsplit: lemma_rrun_split, lemma_any_reads_any_choices, incl. the implementation-chosen split of a partly available Params payload). usize fixed to 64 bit.',
         tech=TECH_V),
     'C04': dict(
         cat='proof', ref='DESIGN 4/C04',
@@ -50,7 +50,7 @@ CLAIMED.update({
     'C01': dict(
         cat='proof', ref='DESIGN 4/C01',
         text='Every function of the request-preamble parser (StateBuilder::into_skip, SkipState/GetValuesState/HeaderState/ParamsState::drive, ParamsStateInner::parse_buffered and parse_stream incl. the try_fill!/to_array!/try_head! macros, State::drive, Parser::parse/move_input/into_request/into_stream_parser) is verified by Verus against specification-level step functions written from the FastCGI specification (header_step, params_step, skip_step, values_step, composed by r_run): BeginRequest framing yields exactly the transmitted id/role/flags; cross-record pair reassembly (parse_buffered, both length encodings, every split point) inserts exactly the pairs of the consumed byte prefix, in order, once (log + decode_pairs(carry + consumed), carry = decode_rest(..)); State::drive takes exactly the steps of r_run; for all payload/padding lengths, cuts and buffer contents.',
-        note='The environment map is abstracted to the ordered log of raw (name, value) pairs handed to it (R8): last-value-wins / case-insensitive lookup rest on std HashMap + C19, make_cgivar (lossy UTF-8 + uppercasing) is external. Lemma layer (unit reqlemmas, machine-checked): consuming the Params payload in ANY pieces gives log == log0 + decode_pairs(concatenation), carry == decode_rest(concatenation) (lemma_any_segmentation, lemma_segmentation_independent), and decode_pairs(enc_all(pairs)) == pairs (round trip). What is not a checked lemma: the induction tying these to whole call histories of Parser::parse with interleaved non-Params records. Trusted: R-rewrites, wrappers listed in evidence, VarInt::read / from_bytes contracts (proved complete by Kani).',
+        note='The environment map is abstracted to the ordered log of raw (name, value) pairs handed to it (R8): last-value-wins / case-insensitive lookup rest on std HashMap + C19, make_cgivar (lossy UTF-8 + uppercasing) is external. Lemma layer (unit reqlemmas, machine-checked): consuming the Params payload in ANY pieces gives log == log0 + decode_pairs(concatenation), carry == decode_rest(concatenation) (lemma_any_segmentation, lemma_segmentation_independent), and decode_pairs(enc_all(pairs)) == pairs (round trip). Read-chunking invariance over whole call histories is machine-checked on the run specification (unit reqsplit: lemma_rrun_split, lemma_any_reads_any_choices): for ANY sequence of non-empty reads and ANY implementation-chosen split point of a partly available Params payload in each call, interleaved management / unknown / foreign records included, the state reached, the bytes left unread and the replies owed are those of one call on all the bytes; in particular every read schedule ends in the same Done{request}. The wire-level statement is a checked theorem too (lemma_preamble, lemma_preamble_any_reads): BeginRequest + any well-formed records (Params data records cut anywhere with any padding, GetValues queries, unknown-type / foreign / stale records) + the empty Params record => Done{id, role, flags, log = decode_pairs(concatenated Params payloads)}, every byte consumed, exactly the owed replies, under every read schedule; the hypotheses are shown satisfiable by a concrete witness. Left as composition: decode_pairs(enc_all(pairs)) == pairs is lemma_roundtrip of unit reqlemmas; the side condition that the input buffer never fills up (StuckOnInput, C06); the map semantics behind the log (R8). Trusted: R-rewrites, wrappers listed in evidence, VarInt::read / from_bytes contracts (proved complete by Kani).',
         tech=TECH_V),
     'C06': dict(
         cat='proof', ref='DESIGN 4/C06',
